@@ -35,7 +35,7 @@ EXPECTED_PROBES = ["awaiting_ack", "awaiting_separate_response", "mid_blockwise"
 
 OTHER_IP = "fd00::3"
 ACTIVITIES = ["t_req_silent", "t_req_acked", "t_backlog", "t_get_big", "t_put_big", "t_observe", "s_req_slow",
-              "s_observe", "s_req_fast", "o_req", "t_backlog_acked"]
+              "s_observe", "s_req_fast", "o_req", "t_backlog_acked", "s_token_reuse"]
 
 
 def gen(r, tier):
@@ -211,6 +211,13 @@ def run_world(scn, shutdown_at, seed):
                 path = b"slow" if k == "s_req_slow" else b"fast"
                 sclient.send(taddr, msg={"type": rc.CON, "code": rc.GET, "mid": 0x5000 + n[0], "token": bytes([0x5C, n[0]]),
                                          "options": [(rc.URI_PATH, path), (rc.URI_QUERY, b"d=%r" % a["d"])], "payload": b""})
+            elif k == "s_token_reuse":
+                # two confirmable requests on one token (different message IDs) in quick succession, both to a slow
+                # handler: two empty-ACK timers are pending for one (remote, token)
+                for j in range(2):
+                    sclient.send(taddr, msg={"type": rc.CON, "code": rc.GET, "mid": 0x5800 + 2 * n[0] + j, "token": bytes([0x5E, n[0]]),
+                                             "options": [(rc.URI_PATH, b"slow"), (rc.URI_QUERY, b"d=%r" % a["d"])], "payload": b""},
+                                 fate=["deliver", 0.005 + 0.01 * j])
             elif k == "s_observe":
                 sclient.send(taddr, msg={"type": rc.CON, "code": rc.GET, "mid": 0x5000 + n[0], "token": bytes([0x5D, n[0]]),
                                          "options": [(rc.OBSERVE, b""), (rc.URI_PATH, b"counter")], "payload": b""})
